@@ -195,7 +195,9 @@ CHECKS = {
               "document reads as that model (C04_variant_denotes); a parser-reported syntax error becomes a library error and "
               "never a model. Not proved: which texts the external ANTLR parser accepts/rejects and how comments, blank lines and headers "
               "vanish in its parse tree — decided on the implementation by suite R-uvl-emitter (independent reference emitter + "
-              "oracle: model read = reference model) and suite P-uvl-invalid (one-defect documents must raise)."),
+              "oracle: model read = reference model) and suite P-uvl-invalid (one-defect documents must raise). Six open findings "
+              "(five rooted in the uvlparser dependency) are reproduced by fixed documents with controls (suite R-uvl-known) and "
+              "printed as KNOWN-FINDING."),
         note=("Coq kernel; extraction/driver; harness reference emitter (its reading of the UVL language); the external parser is "
               "sampled, not modelled; no axioms"),
         technique="Coq proof over the reader model on parse trees + differential correspondence with a reference emitter",
